@@ -30,7 +30,8 @@ def gen_fst(rng, max_states=4, max_trans=6, allow_int=True, pool=None):
     finals = [s for s in states if rng.chance(0.4)] or ([rng.pick(states)] if rng.chance(0.85) else [])
     mode = rng.pick(HASH_MODES) if valmode == "str" else "plain"
     case = {"states": states, "inputs": inputs, "trans": trans, "starts": starts, "finals": finals,
-            "valmode": valmode, "hash": assign_hashes(rng, sorted("S:" + s for s in states), mode), "hashmode": mode}
+            "valmode": valmode, "hash": assign_hashes(rng, sorted("S:" + s for s in states), mode), "hashmode": mode,
+            "bulk": rng.chance(0.15)}
     make_eps_cycles_silent(case)
     return case
 
@@ -77,6 +78,10 @@ def build(case):
         f.add_start_state(sv(case, s))
     for s in case["finals"]:
         f.add_final_state(sv(case, s))
+    if case.get("bulk"):
+        f.add_transitions([(sv(case, p), "epsilon" if a is None else a, sv(case, q), list(o))
+                           for p, a, q, o in case["trans"]])
+        return f
     for p, a, q, o in case["trans"]:
         f.add_transition(sv(case, p), "epsilon" if a is None else a, sv(case, q), list(o))
     return f
@@ -105,6 +110,8 @@ def shrink_fst(case):
         c.update(kw)
         return c
     tr = case["trans"]
+    if case.get("bulk"):
+        yield mk(bulk=False)
     for i in range(len(tr)):
         yield mk(trans=tr[:i] + tr[i + 1:])
     for i, t in enumerate(tr):
